@@ -40,7 +40,21 @@ def regenerate():
     r = json.load(open(rep)); os.unlink(rep)
     return r
 
+def write_coqproject():
+    """_CoqProject lists every .v under coq/ except the per-engine Extract.v files (run by hand)."""
+    files = []
+    for root, dirs, fs in os.walk(COQ):
+        dirs.sort()
+        for f in sorted(fs):
+            if f.endswith(".v") and f != "Extract.v" and not f.startswith("Dbg_"):
+                files.append(os.path.relpath(os.path.join(root, f), COQ))
+    text = "-Q . CC\n" + "\n".join(files) + "\n"
+    p = os.path.join(COQ, "_CoqProject")
+    if not os.path.exists(p) or open(p).read() != text:
+        open(p, "w").write(text)
+
 def coq_make(targets=None, keep_going=True):
+    write_coqproject()
     """Full .vo build of the development (incremental). Returns (ok, output)."""
     if not os.path.exists(os.path.join(COQ, "Makefile")) or \
        os.path.getmtime(os.path.join(COQ, "Makefile")) < os.path.getmtime(os.path.join(COQ, "_CoqProject")):
@@ -105,6 +119,7 @@ def check_property_file(pid):
 
 FORBIDDEN = r"\b(Admitted|admit|Axiom|Parameter|Conjecture|Unset Guard|bypass_check|Admit Obligations|type-in-type)\b"
 def hygiene():
+    """Forbidden constructs anywhere in the development (comments stripped)."""
     bad = []
     for root, _, files in os.walk(COQ):
         for f in files:
@@ -115,31 +130,40 @@ def hygiene():
                     bad.append("%s: %s" % (os.path.relpath(os.path.join(root, f), COQ), m.group(1)))
     return bad
 
-def build_driver():
-    """Extract all models and compile the OCaml driver (under the build lock)."""
-    gen = os.path.join(VERIF, "ocaml", "gen")
-    os.makedirs(gen, exist_ok=True)
-    rc, out = sh(["coqc", "-Q", COQ, "CC", os.path.join(COQ, "Extract.v")], cwd=gen, timeout=900)
+def build_driver(engine, edir):
+    """Extract the engine's models (coq/<edir>/Extract.v -> model.ml) and compile build/driver_<engine>."""
+    od = os.path.join(BUILD, "ocaml_" + engine)
+    shutil.rmtree(od, ignore_errors=True); os.makedirs(od)
+    rc, out = sh(["coqc", "-Q", COQ, "CC", os.path.join(COQ, edir, "Extract.v")], cwd=od, timeout=900)
+    for junk in ("Extract.vo", "Extract.glob", "Extract.vok", "Extract.vos", ".Extract.aux"):
+        try: os.unlink(os.path.join(COQ, edir, junk))
+        except OSError: pass
     if rc != 0:
         return False, out
-    srcs = ["gen/model.mli", "gen/model.ml", "util.ml"] + sorted(f for f in os.listdir(os.path.join(VERIF, "ocaml")) if re.match(r"d_\w+\.ml$", f)) + ["driver.ml"]
-    od = os.path.join(BUILD, "ocaml_obj")
-    shutil.rmtree(od, ignore_errors=True); os.makedirs(od)
+    main = 'let () = Util.main %s.run\n' % ("D_" + engine)
+    open(os.path.join(od, "main.ml"), "w").write(main)
+    srcs = ["util.ml", "d_%s.ml" % engine]
     for s in srcs:
         shutil.copy(os.path.join(VERIF, "ocaml", s), od)
-    rc, out2 = sh(["ocamlfind", "ocamlopt", "-O2" if False else "-w", "-a"] + [os.path.basename(s) for s in srcs] + ["-o", os.path.join(BUILD, "driver")], cwd=od, timeout=900)
+    rc, out2 = sh(["ocamlfind", "ocamlopt", "-w", "-a", "model.mli", "model.ml"] + srcs + ["main.ml", "-o", os.path.join(BUILD, "driver_" + engine)], cwd=od, timeout=900)
     return rc == 0, out + out2
 
-def prepare(need_driver=True):
-    """regenerate + coq build + driver; serialised. Returns dict."""
+def prepare(engines, targets):
+    """regenerate + coq build of `targets` (.vo) + one driver per engine; serialised by a file lock.
+    engines: list of (name, coq dir, [model .vo targets])"""
     t0 = time.time()
     with Lock("build.lock"):
         rep = regenerate()
-        ok, out = coq_make()
-        res = {"gen": rep, "coq_ok": ok, "coq_out": out, "coq_errors": coq_errors(out) if not ok else []}
-        if need_driver:
-            dok, dout = build_driver()
-            res["driver_ok"] = dok; res["driver_out"] = dout
+        model_targets = [t for _, _, ms in engines for t in ms]
+        mok, mout = coq_make(model_targets) if model_targets else (True, "")
+        ok, out = coq_make(targets) if targets else (True, "")
+        res = {"gen": rep, "coq_ok": ok, "coq_out": out, "coq_errors": coq_errors(out) if not ok else [],
+               "models_ok": mok, "models_out": mout, "drivers": {}}
+        for name, edir, _ in engines:
+            dok, dout = build_driver(name, edir) if mok else (False, mout)
+            res["drivers"][name] = (dok, dout)
+        res["driver_ok"] = all(v[0] for v in res["drivers"].values())
+        res["driver_out"] = "\n".join(v[1] for v in res["drivers"].values() if not v[0])
     res["prepare_s"] = round(time.time() - t0, 1)
     return res
 
